@@ -4,6 +4,7 @@ package c12
 import (
 	"encoding/json"
 	"fmt"
+	"net/http"
 	"strings"
 	"sync"
 	"testing"
@@ -21,7 +22,7 @@ var rec = vh.NewRecorder("C12", "call-histories",
 		"session table giving the allowed status set per call, every call answered (no panic, no call left unanswered for 15 s), backend "+
 		"observes a client close, polls after a backend close deliver the queued messages and then 400; non-trivial = a concurrent group "+
 		"containing a close, or a backend close with queued messages; distinct = SHA-256 of the history"+
-		" Later additions: messages of odd shapes, backend closes with and without immediate polling, a slow-failing open overlapping a successful one (ids of open sessions must stay unique), sessions whose backend never reads (the close call must still close the backend connection within 10 s).")
+		" Later additions: messages of odd shapes, backend closes with and without immediate polling, a slow-failing open overlapping a successful one (ids of open sessions must stay unique), sessions whose backend never reads (the close call must still close the backend connection within 10 s); one fixed scenario in the background of every run: an open call whose backend takes the upgrade request and never answers it must be answered within 60 s, other opens meanwhile unaffected.")
 
 func TestMain(m *testing.M) { vh.Main(m, rec) }
 
@@ -533,10 +534,49 @@ func runCase(c *Case) vh.Outcome {
 }
 
 func TestPropCallHistories(t *testing.T) {
+	// In the background (it takes a minute): an open call whose backend accepts the upgrade request and then does not
+	// answer it. The call must still get an HTTP answer (the unchanged code gives up on the handshake after 45 s), and
+	// other sessions are not held up meanwhile.
+	hung := make(chan vh.Outcome, 1)
+	if vh.Shard() == 0 {
+		go func() {
+			o := vh.Outcome{NonTrivial: true, Classes: []string{"open-while-the-backend-never-answers-the-handshake"}}
+			hr := shimrig.New(shimrig.Options{})
+			start := time.Now()
+			done := make(chan shimrig.Result, 1)
+			go func() {
+				done <- hr.Call("POST", hr.ShimPath+"/open", []byte("ws://backend.example/hang/c12"), http.Header{"X-Websocket-Shim-Version": {"1"}}, 60*time.Second)
+			}()
+			time.Sleep(500 * time.Millisecond)
+			if id, bc, res := hr.Open("/ws/c12-beside-the-hung-open", 1, nil, callTimeout); res.Status != 200 || bc == nil {
+				o.Err = fmt.Errorf("while an open call was waiting for a backend that does not answer the handshake, another open answered %d (unanswered=%v)", res.Status, res.TimedOut)
+			} else {
+				hr.Call("POST", hr.ShimPath+"/close", shimrig.IDBody(id), nil, callTimeout)
+			}
+			res := <-done
+			if o.Err == nil && (res.TimedOut || res.Panic != nil) {
+				o.Err = fmt.Errorf("an open call whose backend took the upgrade request and never answered it got no HTTP answer within %v (panic=%v)", time.Since(start).Round(time.Second), res.Panic)
+			} else if o.Err == nil && res.Status != 500 && res.Status != 400 && res.Status != 408 {
+				o.Err = fmt.Errorf("an open call whose backend never answered the handshake was answered %d", res.Status)
+			}
+			hung <- o
+		}()
+	}
 	vh.Rapid(t, vh.Scale(800, 20000), func(rt *rapid.T) {
 		c := genCase(rt)
 		rec.Check(rt, &c, func() vh.Outcome { return runCase(&c) })
 	})
+	if vh.Shard() == 0 {
+		c := Case{Steps: []Step{{Kind: "open-hung-handshake"}}}
+		rec.Check(t, &c, func() vh.Outcome {
+			select {
+			case o := <-hung:
+				return o
+			case <-time.After(90 * time.Second):
+				return vh.Outcome{Inconclusive: "the background scenario did not finish"}
+			}
+		})
+	}
 }
 
 // TestPropPollTimeout samples the 408 path (a poll with nothing to deliver) in the thorough tier only: it takes 20 s.
